@@ -11,7 +11,7 @@ static char *kmap_map(int kmap, int c)
 	static char cs[4];
 	char **keymap = conf_kmap(kmap);
 	cs[0] = c;
-	return keymap[c] ? keymap[c] : cs;
+	return c && keymap[c] ? keymap[c] : cs;
 }
 
 static int led_pos(int dir, int pos, int beg, int end)
